@@ -23,7 +23,7 @@ def exc_signature(e: BaseException) -> str:
     return f'exc:{type(e).__name__}@{exc_site(e)}'
 
 
-def rebuild(node):
+def rebuild(node, fresh_metadata: bool = False):
     """re-run every constructor (validators, converters) bottom-up; raises if the tree is not a valid AST"""
     import attrs
     from hpl.ast.base import HplAstObject
@@ -35,11 +35,65 @@ def rebuild(node):
             continue
         v = getattr(node, f.name)
         if isinstance(v, HplAstObject):
-            v = rebuild(v)
+            v = rebuild(v, fresh_metadata)
         elif isinstance(v, tuple):
-            v = tuple(rebuild(x) for x in v)
+            v = tuple(rebuild(x, fresh_metadata) for x in v)
+        elif fresh_metadata and f.name == 'metadata':
+            v = {}
         kw[f.name.lstrip('_')] = v
     return type(node)(**kw)
+
+
+def derived_variants(ast):
+    """trees derived from `ast` with but() (the documented way to copy with changes): operands swapped, a negation added or removed,
+    a quantifier's condition negated — each a DIFFERENT expression that inherits whatever but() copies from `ast`"""
+    from hpl.ast.expressions import Not
+    k = type(ast).__name__
+    out = []
+    try:
+        if k == 'HplBinaryOperator' and ast.operand1 != ast.operand2:
+            out.append(('operands swapped', ast.but(operand1=ast.operand2, operand2=ast.operand1)))
+        elif k == 'HplUnaryOperator' and ast.operator.token == 'not':
+            out.append(('double negation', ast.but(operand=Not(ast.operand))))
+        elif k == 'HplQuantifier':
+            out.append(('condition negated', ast.but(condition=Not(ast.condition))))
+    except (TypeError, ValueError):
+        pass
+    return out
+
+
+def history_dependence(f, ast, same=lambda a, b: a == b, holds=None):
+    """None, or a description. f is applied to `ast`, then to trees derived from it with but(), and to freshly constructed equal trees.
+    A difference between the two answers is only a SYMPTOM; it is reported when the answer for the derived tree violates the property
+    itself — `holds(derived_input, result)` (the caller's oracle) is False — or when f raises only because of the history."""
+    def run(x):
+        try:
+            return ('ret', f(x))
+        except Exception as e:
+            return ('raise', type(e).__name__)
+    first = run(ast)
+    again = run(ast)
+    if first[0] == 'ret' and again[0] == 'raise':
+        return f'called twice on the same object: returns at first, raises {again[1]} the second time'
+    for desc, d in derived_variants(ast):
+        try:
+            fresh_in = rebuild(d, fresh_metadata=True)
+        except Exception:
+            continue
+        hist, fresh = run(d), run(fresh_in)
+        if hist[0] == 'raise' and fresh[0] == 'ret':
+            return f'derived tree ({desc}) «{d}»: raises {hist[1]} after the original was processed, returns for a freshly built equal tree'
+        if hist[0] == 'ret' and fresh[0] == 'ret' and not same(hist[1], fresh[1]):
+            ok = holds(d, hist[1]) if holds is not None else False
+            if ok is False:
+                return f'derived tree ({desc}) «{d}»: answer {_show(hist[1])} after the original was processed ({_show(fresh[1])} for a freshly built equal tree) violates the property'
+    return None
+
+
+def _show(r):
+    if isinstance(r, (list, tuple)):
+        return '[' + ', '.join(str(x) for x in r) + ']'
+    return str(r)
 
 
 def check_valid(node) -> Optional[str]:
